@@ -38,6 +38,27 @@ let run_board (fields : string list) : string =
     | Some l -> String.concat "," (List.map (fun e -> pn e.M.e_tag) l) in
   Printf.sprintf "board offsets=%s read=%s" offsets read
 
+(* "boardraw n {E tag claimed id len | J len}* | k nid {id}* noff {off}*": an arbitrary file, then a read *)
+let run_boardraw (fields : string list) : string =
+  let open Fsm_io in
+  let c = { a = Array.of_list fields; i = 0 } in
+  let n = next_int c in
+  let f = rep n (fun () ->
+      match next c with
+      | "E" -> let tag = next_n c in let off = next_z c in let id = next_n c in let len = next_z c in
+        M.LEntry { M.e_tag = tag; e_offset = off; e_id = id; e_len = len }
+      | "J" -> let len = next_z c in M.LJunk len
+      | _ -> failwith "expected E or J") in
+  (match next c with "|" -> () | _ -> failwith "expected |");
+  let k = next_z c in
+  let nid = next_int c in
+  let ids = rep nid (fun () -> next_n c) in
+  let noff = next_int c in
+  let offs = rep noff (fun () -> next_z c) in
+  match M.get_messages_raw M.read_limit f k ids offs with
+  | None -> "boardraw error"
+  | Some l -> "boardraw read=" ^ String.concat "," (List.map (fun e -> pn e.M.e_tag ^ "@" ^ pz e.M.e_offset) l)
+
 let handle (line : string) : string =
   match split line with
   | "root" :: a :: _ -> run_root a
@@ -47,6 +68,7 @@ let handle (line : string) : string =
   | "node" :: rest -> Node_io.run_node rest
   | "final" :: rest -> Node_io.run_node ("final" :: rest)
   | "board" :: rest -> run_board rest
+  | "boardraw" :: rest -> run_boardraw rest
   | "tasks" :: rest ->
     let a = Array.of_list rest in
     let n = int_of_string a.(0) in
